@@ -10,14 +10,14 @@ from . import _c03_expr as X
 from . import _c03_aux as AUX
 
 ID = "C03"
-LEAN_MODULES = ["NiftyVerif.Core.Proto", "NiftyVerif.Model.Expr", "NiftyVerif.Model.ExprIO", "NiftyVerif.Props.C03Ptw", "NiftyVerif.Props.C03", "NiftyVerif.Props.C03Adj"]
+LEAN_MODULES = ["NiftyVerif.Core.Proto", "NiftyVerif.Model.Expr", "NiftyVerif.Model.ExprIO", "NiftyVerif.Props.C03Ptw", "NiftyVerif.Props.C03Sinc", "NiftyVerif.Props.C03", "NiftyVerif.Props.C03Adj"]
 DRIVER = "Driver/C03.lean"
 TRANSLATORS = [t2_pointwise.translate]
 _PTW = ["sqrt", "sin", "cos", "tan", "exp", "expm1", "log", "log10", "log1p", "sinh", "cosh", "tanh", "sigmoid",
         "reciprocal", "arctan", "power", "exponentiate", "abs", "absolute", "sign", "unitstep", "clip_below",
         "clip_inside", "clip_above", "softplus_low", "softplus_mid", "softplus_high", "sinc"]
 OBLIGATIONS = (["NiftyVerif.C03.ptw_hval_eq_val"] + ["NiftyVerif.C03.ptw_hasDerivAt_" + n for n in _PTW]
-               + ["NiftyVerif.C03.ptw_kink_abs", "NiftyVerif.C03.ptw_kink_clip", "NiftyVerif.C03.ptw_kink_sinc",
+               + ["NiftyVerif.C03.ptw_hasDerivAt_sinc_zero", "NiftyVerif.C03.ptw_hasDerivAt_sinc_all", "NiftyVerif.C03.ptw_kink_abs", "NiftyVerif.C03.ptw_kink_clip", "NiftyVerif.C03.ptw_kink_sinc",
                   "NiftyVerif.C03.ptw_table_hasDerivAt", "NiftyVerif.C03.lin_val", "NiftyVerif.C03.lin_hasDerivAt",
                   "NiftyVerif.C03.metric_carried", "NiftyVerif.C03.metric_gauss", "NiftyVerif.C03.metric_sum",
                   "NiftyVerif.C03.metric_sum_none", "NiftyVerif.C03.metric_scale", "NiftyVerif.C03.jac_adjoint"])
